@@ -50,6 +50,9 @@ type Contract struct {
 	Mode         string // "int" | "bv" | ""
 	Arith        string // "" (overflow obligations) | "wrap"
 	NoNil        bool   // do not generate nil-dereference obligations
+	NoSafety     bool   // generate only pre/post/panic obligations (permission-style contracts)
+	TrustFrame   bool   // the modifies clause is assumed, not checked (listed as an assumption)
+	MayPanic     bool   // explicit panics are allowed (error reporting), no obligation either way
 	Props        []string
 	Pure         bool
 	Replay       string
@@ -119,7 +122,7 @@ func NewContractSet() *ContractSet {
 var clauseKw = map[string]bool{"requires": true, "ensures": true, "ensures!": true, "modifies": true, "panics_if": true,
 	"loop": true, "inline": true, "assumed": true, "mode": true, "arith": true, "func": true, "spec": true, "type": true,
 	"lemma": true, "lemma!": true, "pragma": true, "property": true, "package": true, "ghost": true, "replay": true,
-	"ensures_panic": true, "nonil": true, "pure": true, "witness": true, "end": true, "uses": true}
+	"ensures_panic": true, "nonil": true, "pure": true, "witness": true, "end": true, "uses": true, "nosafety": true, "trustframe": true, "maypanic": true}
 
 var nameRe = regexp.MustCompile(`^([A-Za-z_][A-Za-z0-9_.]*):\s+`)
 
@@ -391,6 +394,18 @@ func (cs *ContractSet) LoadFile(path, pkgPath string) {
 		case "nonil":
 			if cur != nil {
 				cur.NoNil = true
+			}
+		case "nosafety":
+			if cur != nil {
+				cur.NoSafety = true
+			}
+		case "trustframe":
+			if cur != nil {
+				cur.TrustFrame = true
+			}
+		case "maypanic":
+			if cur != nil {
+				cur.MayPanic = true
 			}
 		case "mode":
 			if cur != nil {
